@@ -43,19 +43,19 @@ Definition start_state (p : prepared) : cstate_t :=
 
 Definition run_entry (e : entry) (p : prepared) : cres cnode :=
   let O := policy_ops (pr_lines p) in
-  let P := parsers_at N (list comment) cstate (list comment) comment scan_err O (depth_fuel p) in
+  let P := parsers_at N (list comment) cstate (list comment) scan_err O (depth_fuel p) in
   let s0 := start_state p in
   match e with
-  | EFile => parse_file N (list comment) cstate (list comment) comment scan_err O P s0
-  | EExpr => entry_expression N (list comment) cstate (list comment) comment scan_err O P s0
-  | EStmt => entry_stmt N (list comment) cstate (list comment) comment scan_err O P s0
+  | EFile => parse_file N (list comment) cstate (list comment) scan_err O P s0
+  | EExpr => entry_expression N (list comment) cstate (list comment) scan_err O P s0
+  | EStmt => entry_stmt N (list comment) cstate (list comment) scan_err O P s0
   | EStmts n =>
       (* n successive Parser::parse_stmt calls on one parser: a Block-less list *)
       (fix go (k : nat) (acc : list cnode) (s : cstate_t) : cres cnode :=
          match k with
          | O => Ok (nlist acc) s
          | S k' =>
-             match entry_stmt N (list comment) cstate (list comment) comment scan_err O P s with
+             match entry_stmt N (list comment) cstate (list comment) scan_err O P s with
              | Ok st s' => go k' (acc ++ [st]) s'
              | Err e s' => Err e s'
              | Panic n => Panic n
